@@ -364,6 +364,39 @@ def correspondence(ctx):
                      drv.ask("gde", q(atol), code, qlist(tape) if tape is not None else "-", qlist(p), n)))
         ctx.case(("gde", vk, tuple(p), code, repr(arg)[:20]), sample={"op": "gde", "probs": p.tolist(), "seed": repr(arg)[:30]})
         ctx.count(f"generate_data_from_prob_dist outcome {got[1] if got[0] == 'err' else 'ok'}")
+    # (4d) reset_seed histories (op rseed): QTomography.reset_seed(arg) / unseeded Experiment.generate_data through the global state
+    import qobj
+    from quara.protocol.qtomography.standard.standard_qst import StandardQst
+    from quara.protocol.qtomography.standard.standard_povmt import StandardPovmt
+    gq = ctx.npgen(7)
+    cq = qobj.csys("qubit")
+    histories = [["D3", "RN", "D4", "D2", "R0", "D3", "RN", "D2"], ["RN", "D2", "R7", "D3", "R7", "D3", "RN", "D1", "R0", "RN", "D2"],
+                 ["D1", "R0", "D2", "R0", "D2", "R11", "D2", "RN", "D2"]]
+    for which, s0 in (("qst", 5), ("povmt", 0), ("qst", 0)):
+        for acts in histories:
+            if which == "qst":
+                t = StandardQst([qobj.rand_povm(gq, cq, 3), qobj.rand_povm(gq, cq, 2)], seed_data=s0)
+                t._experiment.states[0] = qobj.rand_state(gq, cq)
+            else:
+                t = StandardPovmt([qobj.rand_state(gq, cq), qobj.rand_state(gq, cq)], num_outcomes=3, seed_data=s0)
+                t._experiment.povms[0] = qobj.rand_povm(gq, cq, 3)
+            probs = np.asarray(t._experiment.calc_prob_dist(0), dtype=float)
+            total = sum(int(a[1:]) for a in acts if a[0] == "D")
+            rs = np.random.RandomState(); rs.set_state(np.random.get_state())
+            glob_tape = rs.random_sample(total)
+            used = sorted({s0} | {int(a[1:]) for a in acts if a[0] == "R" and a != "RN"})
+            tapes = {sd: np.random.RandomState(sd).random_sample(total) for sd in used}
+            got = []
+            for a in acts:
+                if a == "RN":
+                    t.reset_seed()
+                elif a[0] == "R":
+                    t.reset_seed(int(a[1:]))
+                else:
+                    got.append([int(x) for x in t._experiment.generate_data(0, int(a[1:]))])
+            pend.append(("rseed", (which, s0, acts), got,
+                         drv.ask("rseed", s0, "|".join(f"{sd}={qlist(tapes[sd])}" for sd in used), qlist(glob_tape), qlist(probs), ",".join(acts))))
+            ctx.case(("rseed", which, s0, tuple(acts)), sample={"op": "rseed", "class": which, "seed_data": s0, "history": acts})
     # (5) generate_empi_dists_sequence_from_prob_dists: multinomial draws consumed schedule-major on one stream
     for t in range(80 if ctx.quick else 600):
         k = int(g.integers(1, 4))
@@ -399,6 +432,8 @@ def correspondence(ctx):
                     (mdrawn == drawn or inp[2][0] not in "GN")
             else:
                 ok = t[0] == "err" and t[1] == got[1] and not mdrawn and not drawn
+        elif op == "rseed":
+            ok = [[] if d == "-" else [int(x) for x in d.split(",")] for d in line.split("|")] == impl
         elif op == "dsargs":
             body, left = line.rsplit(" ", 1)
             ok = left == "left=0,0,0" and [[] if d == "-" else [int(x) for x in d.split(",")] for d in body.split("|")] == impl
